@@ -30,6 +30,16 @@ def impl_oracle(c):
     return [msg]
 
 
+# where a value sits when it is operated on in place is part of where it came from: a string in a variable, a list slot, a typed
+# slot or a struct field takes a character store the same way
+EXPECT = []
+for _mk, _t in (("t = \"abc\"", "t"), ("l = [\"abc\"]", "l[0]"), ("a = make([]string, 1); a[0] = \"abc\"", "a[0]"), ("s = make(struct { S string }); s.S = \"abc\"", "s.S"),
+                ("a = make([]string, 1); a[0] = \"abc\"; u = a[0]", "u"), ("p = new(string); *p = \"abc\"; u = *p", "u")):
+    for _v, _want, _what in (("\"xyz\"", "s:6178797a63", "several bytes"), ("\"\"", "s:6163", "no byte"), ("\"q\"", "s:617163", "one byte")):
+        EXPECT.append({"src": "%s; %s[1] = %s; %s" % (_mk, _t, _v, _t), "field": "result", "want": _want,
+                       "why": "%s stored at an index of a string held in %s: the same new string as for a string in a variable" % (_what, _t)})
+
+
 def run(tier, seed, replay=None):
     BASE.clear()
     return interpcheck.run_interp_check(
@@ -44,4 +54,4 @@ def run(tier, seed, replay=None):
              "plain variable; and agreement with the (provenance-blind) Coq model; plus 16 templates (method calls, method values, len, index, "
              "member, for-in, +, ==, deref) x 4 Go values of named non-struct types with methods (time.Duration, url.Values, sort.IntSlice, "
              "*time.Duration) x chains, judged by the same law on the implementation alone (the model has no such values)",
-        design_ref="DESIGN.md §4 C20", impl_oracle=impl_oracle, max_dropped=0.2)
+        design_ref="DESIGN.md §4 C20", impl_oracle=impl_oracle, max_dropped=0.2, expectations=EXPECT)
